@@ -52,6 +52,25 @@ def check(seed):
     elif k < 0.42:
         bc = HomogeneousMatrix((0.0, 0.0, 0.0), rq(rnd), src=FrameID.MAP, dst="lidar_top")
     p, q = t(), rq(rnd)
+    if rnd.random() < 0.35:
+        # a transform built from the caller's work buffer (an ndarray position, or a 4x4 array through from_matrix) that the caller then refills for the
+        # next pose: whatever pose the transform holds afterwards, its position-only route, its pose route and its matrix describe the same one
+        if rnd.random() < 0.5:
+            buf = np.array(t(), dtype=float)
+            m = HomogeneousMatrix(buf, rq(rnd), src="base_link", dst=FrameID.MAP)
+            buf += np.array([4.5, 2.5, 0.1])
+        else:
+            buf = HomogeneousMatrix(t(), rq(rnd), src="base_link", dst=FrameID.MAP).matrix.copy()
+            m = HomogeneousMatrix.from_matrix(buf, src="base_link", dst=FrameID.MAP)
+            buf[:3, 3] += np.array([4.5, 2.5, 0.1])
+        hom = m.matrix.dot(np.array([p[0], p[1], p[2], 1.0]))[:3]
+        p_only = m.transform(p)
+        p_pose, _ = m.transform(p, q)
+        if not (np.allclose(p_only, hom, atol=1e-7) and np.allclose(p_pose, hom, atol=1e-7)):
+            return f"after the caller refilled the buffer the transform was built from: transform(p) = {tuple(p_only)}, transform(p, q) = {tuple(p_pose)}, matrix @ p = {tuple(hom)}"
+        back = m.inv().transform(m.transform(p))
+        if not np.allclose(back, p, atol=1e-7):
+            return f"after the caller refilled the buffer the transform was built from: inverse round trip {p} -> {tuple(back)}"
     # inverse round trip
     p1, q1 = ab.transform(p, q)
     p2, q2 = ab.inv().transform(p1, q1)
